@@ -209,7 +209,7 @@ EFF_KEYS = {
     'hooks': ['before_handler', 'before_handler.1', 'on_start_resource.c08', 'before_finalize.a.b', 'nosuch_point',
               'nosuch.1', 'on_end_request', ''],
     'error_page': ['default', '404', '500', '007', 'abc', 'not.found', 'x'],
-    'server': ['socket_port', 'alt.socket_port', 'alt.on', 'new.on', 'new.socket_host', 'alt.a.b', 'on'],
+    'server': ['socket_port', 'alt.socket_port', 'alt.on', 'new.on', 'new.socket_host', 'alt.a.b', 'on', 'fresh.on', 'fresh.x'],
     'engine': ['SIGHUP', 'SIGTERM', 'autoreload.on', 'autoreload.frequency', 'thread_manager.on', 'plain.on', 'plain.x',
                'nosuch.on', 'timeout', 'autoreload.a.b'],
     'log': ['screen', 'error_file', 'a.b'],
@@ -258,9 +258,14 @@ def run_eff_real(spec):
             for n in KNOWN_SERVERS:
                 servers[n] = SubRec('servers:' + n, journal)
             cherrypy.server = Rec('server', journal)
-            cherrypy.servers = servers
+            if key.startswith('fresh.'):
+                if hasattr(cherrypy, 'servers'):
+                    del cherrypy.servers             # the handler creates the registry when it is not there yet
+            else:
+                cherrypy.servers = servers
             _cpserver.Server = FakeServer
             _cpconfig._server_namespace_handler(key, val)
+            servers = getattr(cherrypy, 'servers', servers)
             names = dict((id(s), n) for n, s in servers.items())
             journal[:] = [(e[0], 'servers:' + names.get(id(e[1][0]), '?')) + tuple(e[2:]) if isinstance(e[1], list) else e
                           for e in journal]
@@ -329,9 +334,31 @@ def ref_effect(spec):
     return None
 
 
+def check_attributes(ctx):
+    """`reprconf.attributes('pkg.mod.name')`: what a dotted string in `hooks.*` stands for."""
+    from cherrypy.lib import reprconf
+    case = {'nseff': {'which': 'hooks', 'key': 'attributes', 'val': HOOK_PATH}}
+    ctx.case(case, nontrivial=True, key='attributes')
+    try:
+        ok = reprconf.attributes(HOOK_PATH) is probe_hook
+    except Exception:
+        ok = False
+    if not ok:
+        ctx.oracle_fail(case, 'reprconf.attributes(%r) does not give the function of that name' % HOOK_PATH, 'namespace_handler:hooks')
+    try:
+        reprconf.attributes('harness.c08_ns.nosuch_attribute')
+        ctx.oracle_fail(case, 'reprconf.attributes of a missing attribute did not raise', 'namespace_handler:hooks')
+    except AttributeError:
+        pass
+    except Exception as e:
+        ctx.oracle_fail(case, 'reprconf.attributes of a missing attribute raised %s' % type(e).__name__, 'namespace_handler:hooks')
+
+
 def check_eff_cases(ctx, cases, compare_model=True):
     import cherrypy
     lines, meta = [], []
+    if len(cases) > 1:
+        check_attributes(ctx)
     for case in cases:
         spec = case['nseff']
         ctx.case(case, nontrivial=True, key='nseff:' + json.dumps(spec, sort_keys=True))
